@@ -116,6 +116,17 @@ def run_job(job, ctx):
             if cfg["order"] == "shuffled":
                 r.shuffle(order)
             root = run.make_repo({p: s.files[p] for p in order})
+            # the user's home directory is the repository itself, one of its sub-directories, or elsewhere (must not matter); likewise
+            # other ambient variables
+            cfg["home"] = "elsewhere" if k in (0, 3) else r.choice(["elsewhere", "elsewhere", "repo-root", "repo-subdir", "unset"])
+            if cfg["home"] == "repo-root":
+                env["HOME"] = root
+            elif cfg["home"] == "repo-subdir" and subdirs:
+                env["HOME"] = os.path.join(root, subdirs[0])
+            elif cfg["home"] == "unset":
+                env["HOME"] = None
+            if k % 5 == 4:
+                env.update({"NO_COLOR": "1", "RUST_LOG": "debug", "CI": "true", "LANG": "tr_TR.UTF-8", "LC_ALL": "tr_TR.UTF-8", "COLUMNS": "20"})
             d = diff
             if cfg["diff_order"] == "permuted":
                 d = permute_diff(diff, r)
@@ -137,8 +148,8 @@ def judge(s, diff, malformed, results, configs, desc, fl):
     nfiles = len(s.files)
     vals = s.validators_active()
     nontrivial = nfiles >= 3 and len(vals) >= 3
-    sets = {"perturbations": sorted({"%s/%s/%s/%s/%s/%s" % (c["workers"] or "dflt", c["affinity"] or "all", c["order"], c["diff_order"],
-                                                            "sub" if c["cwd"] else "root", "ai-late" if c.get("ai_delay") else "ai-fast") for c in configs}),
+    sets = {"perturbations": sorted({"%s/%s/%s/%s/%s/%s/%s" % (c["workers"] or "dflt", c["affinity"] or "all", c["order"], c["diff_order"],
+                                                            "sub" if c["cwd"] else "root", c.get("home", "-"), "ai-late" if c.get("ai_delay") else "ai-fast") for c in configs}),
             "kind": ["malformed" if malformed else "clean", "diff" if diff else "scan"], "flavour": [fl]}
     wit = {"files": files_text(s.files, 2000), "diff": diff[:2000], "malformed": malformed, "desc": desc}
     for r_ in results:
